@@ -281,7 +281,7 @@ def validate_case(case, mir, schema, native, n, seed, models=None):
         b2 = Builder(h, schema)
         b2.fixed = dict(getattr(case, "fixed", {}) or {})
         req = {"recv_ty": case.recv_ty if case.recv is not None else "<free>", "recv": b2.json(case.recv_ty, case.recv, mv) if case.recv is not None else None,
-               "calls": [{"fn": c.fn, "recv_path": c.recv_path, "args": [b2.json(ty.lstrip("&").strip(), t, mv) for (ty, t) in c.args if not ty.startswith("@")]} for c in case.calls]}
+               "calls": [{"fn": c.fn, "recv_path": c.recv_path, "args": [b2.json(ty.lstrip("&").strip(), t, mv) for (ty, t) in c.args if not ty.startswith("@")]} for c in list(getattr(case, "native_pre", ())) + list(case.calls)]}
         resp = native.call(req)
         if resp.get("kind") == "unsupported":
             res["skipped"] += 1
